@@ -151,6 +151,8 @@ def mk_link(cx, cls, name, start, end, **fields):
     # initial (t = 0) values are distinct symbols: a builder that reads them instead of the current ones fails its postcondition
     base["_initial_setting"] = cx.real("initial_setting")
     base["_initial_status"] = LinkStatus.Open
+    if getattr(cls, "__name__", "") == "Pipe":
+        base["_check_valve"] = False          # as Pipe.__init__ sets it
     base.update(fields)
     return cx.obj(cls, **base)
 
